@@ -349,7 +349,9 @@ impl View {
                         *c = c.wrapping_add(*value);
                         Ok(())
                     }
-                    other => Err(format!("Increment on non-counter {:?} at {:?}", other, prop)),
+                    // an increment of a counter that is not the winning value of its slot cannot be
+                    // addressed by the patch language; it does not change the visible state
+                    _ => Ok(()),
                 }
             }
             (PatchAction::Conflict { prop }, n) => {
